@@ -19,28 +19,33 @@
 (*   protocol_members  type_object.py:176 / :318  set of member names      *)
 (*   constrained_nodes stacked_scopes.py:1084 frozenset of definition nodes *)
 (*                     of a constrained variable (identity-hashed AST nodes)*)
+(*   definition_nodes  stacked_scopes.py:1218 / :1146 name_to_all_definition_nodes: *)
+(*                     sets of identity-hashed AST nodes listed by          *)
+(*                     suppressing_subscope (try bodies, suppressing with)  *)
+(*                     and by lookups from nested functions                 *)
 (*   set_display       a set display evaluated to a real `set`: KnownValue *)
 (*                     renders it with repr() and iterates it in hash order*)
 (***************************************************************************)
 EXTENDS Naturals, Sequences, FiniteSets, TLC
 
-Sites == {"extra_kwargs", "or_constraint", "protocol_members", "constrained_nodes", "set_display"}
+Sites == {"extra_kwargs", "or_constraint", "protocol_members", "constrained_nodes", "definition_nodes", "set_display"}
 
 CONSTANTS Pinned,      \* TRUE: behaviour of the pinned commit (no site imposes an order)
           NSeeds, MaxHist
 
-\* which sites impose a deterministic order in the current code (after the three "fix:" commits)
+\* which sites impose a deterministic order in the current code (after the "fix:" commits)
 Ordered(s) == IF Pinned THEN FALSE ELSE s # "set_display"
 
 \* the program pool: abstract families and the sites their output passes through
 Families == {"kwargs", "orchain", "proto", "setlit", "litunion", "dictkeys", "attrs", "typeddict", "overload",
-             "generic", "narrow", "scopes", "gentwin"}
+             "generic", "narrow", "scopes", "gentwin", "trymulti", "closure"}
 Exercises(p) ==
     CASE p = "kwargs" -> {"extra_kwargs"}
       [] p = "orchain" -> {"or_constraint"}
       [] p = "proto" -> {"protocol_members"}
       [] p = "setlit" -> {"set_display"}
       [] p = "narrow" -> {"constrained_nodes", "or_constraint"}
+      [] p \in {"trymulti", "closure"} -> {"definition_nodes"}
       [] OTHER -> {}
 
 \* caches a check populates (keys only; the cached values are functions of the key alone)
